@@ -77,11 +77,15 @@ class Project:
 
 
 def eof_variant_of(rng: random.Random, src: str, unit: str) -> tuple[str, str]:
-	"""end-of-file layouts: extra blank lines, or an indented block closed only by the end of input (last line holds
-	nothing but indentation and has no line feed)"""
+	"""end-of-file layouts: extra blank lines, no final line feed, an indented block closed only by the end of input
+	(with or without a last line that holds nothing but indentation)"""
 	r = rng.random()
-	if r < 0.5:
+	if r < 0.3:
 		return src + '\n' * rng.randint(1, 2), 'eof-blank-lines'
+	if r < 0.6:
+		return src.rstrip('\n'), 'eof-no-newline'
+	if r < 0.8:
+		return src + f'def tail() -> None:\n{unit}pass', 'eof-block-no-newline'
 	return src + f'def tail() -> None:\n{unit}pass\n{unit}', 'eof-indented-no-newline'
 
 
@@ -191,9 +195,9 @@ def stream_nodes(ctx: Ctx) -> Stream:
 	rng = ctx.sub_rng('span-nodes')
 	pr = Project(ctx)
 	mods = [pr.add_source(f'gen.corpus{k}', src, f'corpus:{name}') for k, (name, src) in enumerate(corpus_modules())]  # replayed first
-	mods += [pr.add_generated(rng, i, eof_variant=(i % 10 == 3)) for i in range(ctx.scale(30, 400))]
-	mods += [pr.add_real(mp) for mp in real_modules(ctx, rng, ctx.scale(4, 60))]
-	per_module = ctx.scale(60, 150)
+	mods += [pr.add_generated(rng, i, eof_variant=(i % 10 == 3)) for i in range(ctx.scale(30, 200))]
+	mods += [pr.add_real(mp) for mp in real_modules(ctx, rng, ctx.scale(4, 40))]
+	per_module = ctx.scale(60, 100)
 	cases = []
 	for mp in mods:
 		for restored in (False, True):
@@ -306,10 +310,14 @@ def stream_hull(ctx: Ctx) -> Stream:
 	app = common.MemApp(ctx.tmpdir())
 	parser = app.resolve(SyntaxParser)
 	sources: list[tuple[str, str]] = []
-	for i in range(ctx.scale(40, 500)):
+	for i in range(ctx.scale(40, 300)):
 		src, d = pygen.gen_module(rng)
-		sources.append((f"generated#{i}:{d['unit']}", src))
-	for mp in real_modules(ctx, rng, ctx.scale(4, 80)):
+		label = f"generated#{i}:{d['unit']}"
+		if i % 5 == 2:
+			src, tag = eof_variant_of(rng, src, d['indent'])
+			label += f':{tag}'
+		sources.append((label, src))
+	for mp in real_modules(ctx, rng, ctx.scale(4, 60)):
 		with open(os.path.join(common.REPO, mp.replace('.', os.sep) + '.py'), encoding='utf-8', newline='') as f:
 			sources.append((mp, f.read()))
 	cases = []
@@ -319,7 +327,8 @@ def stream_hull(ctx: Ctx) -> Stream:
 		app.source = src
 		try:
 			root = parser(app.main).source
-			toks = [t for t in lexer_tokens(parser, src) if t.type not in ('_INDENT', '_DEDENT')]
+			# the parser completes a last line without line feed (parser.py `__load_source`); lex the same text
+			toks = [t for t in lexer_tokens(parser, src if src.endswith('\n') else src + '\n') if t.type not in ('_INDENT', '_DEDENT')]
 		except Exception:  # noqa: BLE001
 			continue
 		spans = [(t.line, t.column, t.end_line, t.end_column) for t in toks]
@@ -343,7 +352,7 @@ def stream_hull(ctx: Ctx) -> Stream:
 				continue
 			ms = (m.line, m.column, m.end_line, m.end_column)
 			if None in ms:
-				skipped_none += 1  # ends with an end-of-input _DEDENT: outside the hull model (defect candidate, see search)
+				skipped_none += 1  # would be an end-of-input _DEDENT without position: outside the hull model, reported by the search
 				continue
 			inside = [s for s in spans if ms[:2] <= s[:2] and s[2:] <= ms[2:]]
 			ops.append('hull\t' + (';'.join(span_s(s) for s in inside) or '-'))
@@ -661,10 +670,10 @@ def search_spans(ctx: Ctx) -> tuple[SearchResult, SearchResult]:
 	mods: list[str] = []
 	for k, (name, src) in enumerate(corpus_modules()):
 		mods.append(pr.add_source(f'gen.corpus{k}', src, f'corpus:{name}'))
-	n_gen = ctx.scale(60, 1200)
+	n_gen = ctx.scale(60, 600)
 	for i in range(n_gen):
-		mods.append(pr.add_generated(rng, i, eof_variant=(i % 20 == 7)))
-	mods += [pr.add_real(mp) for mp in real_modules(ctx, rng, ctx.scale(6, 200))]
+		mods.append(pr.add_generated(rng, i, eof_variant=(i % 6 == 1)))
+	mods += [pr.add_real(mp) for mp in real_modules(ctx, rng, ctx.scale(6, 120))]
 	seen = set()
 	exercised = 0
 	_FRESH_SEEN.clear()
@@ -691,7 +700,7 @@ def search_spans(ctx: Ctx) -> tuple[SearchResult, SearchResult]:
 				check_tree(pr.labels[mp], pr.sources[mp], root, literals, res, suffix)
 			except Exception as e:  # noqa: BLE001
 				add_finding(res, pr.labels[mp], f'span-raises:{exc_enum(e)}', 'file_input', suffix, f'reading the spans raises {exc_enum(e)}', {'module': pr.labels[mp], 'source': pr.sources[mp][:20000]})
-			sampled = check_quotations(pr, mp, ep, rng, ctx.scale(40, 120), resq, suffix, sampled if restored else None)
+			sampled = check_quotations(pr, mp, ep, rng, ctx.scale(40, 60), resq, suffix, sampled if restored else None)
 			kind = pr.labels[mp].split('#')[0].split(':')[0] if mp.startswith('gen.') else 'real'
 			res.histogram[kind + suffix] = res.histogram.get(kind + suffix, 0) + 1
 		if len(res.samples) < 2:
@@ -701,7 +710,7 @@ def search_spans(ctx: Ctx) -> tuple[SearchResult, SearchResult]:
 	if not exercised and not res.findings and not resq.findings:
 		raise common.InfraError('no module was restored from the on-disk cache: the restored half of the search did not run')
 	res.note = 'restrictions: positions inside a CPython STRING token are exempt from the boundary/content checks (quoted annotations are lexed by the grammar as QUOTE NAME QUOTE); CPython NAME tokens that are Python keywords or anonymous literals of grammar.lark, and `# type: ignore` comments (ignored by the grammar) need not be terminals; f-strings are folded into one STRING; files with CR are excluded; for a text without final line feed (lines+1, 1) counts as end of input'
-	resq.note = 'an empty column range is shown by one caret at its position (the renderer\'s documented minimum); nodes whose span has no position (0,0,0,0) must not be quoted at all; CRLF files excluded'
+	resq.note = 'an empty column range is shown by one caret at its position (the renderer\'s documented minimum); nodes whose span has no position (0,0,0,0) must not be quoted at all (regression of fix dc3e568); a None position or a raising renderer is a finding (regression of fix 46d0462); CRLF files excluded'
 	return res, resq
 
 
@@ -755,11 +764,10 @@ def search_collector(ctx: Ctx) -> SearchResult:
 
 
 STATEMENTS = {
-	'mark': 'the quotation of a node with recorded span (bl,bc)..(el,ec), bc ≥ 1, line bl loadable: label = line bl, quoted text = loaded line bl, carets exactly on columns [bc−1, ec−1) for a one-line span (one caret if empty) and [bc−1, len line) for a span continuing on later lines',
-	'quotation_partial': '_partial of quotation_statement: for spans with four int positions, begin line in the file and begin column ≥ 1 the report exists and points at the span',
-	'quotation_counterexample': '_counterexample of the unguarded statement: the span-less node (0,0)..(0,0) is reported under label 0 (witness corpus/C16/spanless-node.json, key quotation-spanless-node)',
-	'quotation_counterexample_spanless': 'what is printed for it: the LAST line of the file with one caret',
-	'quotation_counterexample_none': 'a span whose end is None makes the report raise TypeError (witness corpus/C16/eof-dedent-span.json)',
+	'mark': 'the quotation of a node with recorded span (bl,bc)..(el,ec), bl ≥ 1, bc ≥ 1, line bl loadable: label = line bl, quoted text = loaded line bl, carets exactly on columns [bc−1, ec−1) for a one-line span (one caret if empty) and [bc−1, len line) for a span continuing on later lines',
+	'quotation_spanless': 'a node without a source position (begin line or column < 1, e.g. the span 0,0..0,0 of placeholders) is reported without quotation (fix dc3e568; regression witness corpus/C16/spanless-node.json)',
+	'quotation': 'the whole statement for integer spans: the report is empty exactly for nodes without a position and otherwise points at the span (label, quoted line, caret columns), whenever line bl exists',
+	'quotation_none_end': 'a None end position still raises TypeError in the renderer; None positions no longer occur since fix 46d0462 (search reports any; regression witness corpus/C16/eof-dedent-span.json)',
 	'mark_line': 'the loaded line is the bl-th piece of readlines = the bl-th piece of split("\\n"), without line feed, every tab replaced by exactly one blank (length and columns preserved)',
 	'mark_aligned': 'quoted line and mark line are printed behind prefixes of equal width',
 	'hull_nest': 'under the hull model (span = first..last consumed token, tokens ordered/non-overlapping) a child span lies inside the parent span',
